@@ -98,7 +98,7 @@ func (e *Encoder) applyContract(fc *FuncContract, callee *ssa.Function, args []V
 	c := e.c
 	sname := e.siteName("call", callee.Name())
 	pre := st.clone()
-	env := &Env{c: c, pkg: callee.Pkg.Pkg, vars: map[string]Val{}, mem: pre.memFn(c)}
+	env := &Env{c: c, pkg: callee.Pkg.Pkg, vars: map[string]Val{}, mem: pre.memFn(c), freshBase: pre.ctr, wt: e.assumeCellWT}
 	names := paramNames(callee, fc)
 	for i, par := range callee.Params {
 		if i >= len(args) {
@@ -157,7 +157,7 @@ func (e *Encoder) applyContract(fc *FuncContract, callee *ssa.Function, args []V
 	}
 	result := e.freshVal("r_"+sanitize(callee.Name()), resT)
 	e.assumeWT(result, pc, st)
-	post := &Env{c: c, pkg: callee.Pkg.Pkg, vars: map[string]Val{}, mem: st.memFn(c), old: env}
+	post := &Env{c: c, pkg: callee.Pkg.Pkg, vars: map[string]Val{}, mem: st.memFn(c), old: env, freshBase: pre.ctr, wt: e.assumeCellWT}
 	for k, v := range env.vars {
 		post.vars[k] = v
 	}
